@@ -724,3 +724,84 @@ def ob_pipe_server(cx, what):
         cx.require(len(out.parts) > 0, "no response written")
     cx.observe("log", [(k, v) for k, v in log if k != "chunk"])
     cx.cover("v%d" % version)
+
+
+def _one_request(cx, P, version, tag):
+    """Encode one request with the real client encoder; returns (bytes, verb-args, body)."""
+    col = _Collect()
+    with_body = bool(cx.choose(tag + ".with_body", 0, 1))
+    body = cx.bytes(tag + ".body", cx.choose(tag + ".nb", 0, cx.p("nbody"))) if with_body else None
+    if version == 3:
+        rq = P.ProtocolThreeRequester(col)
+        args = ()
+        if with_body:
+            rq.call_with_body_bytes((b"rec",), body)
+        else:
+            rq.call(b"nob")
+    else:
+        args = tuple(sym_args(cx, tag + ".arg", 1, cx.p("larg")))
+        client = (P.SmartClientRequestProtocolOne if version == 1 else P.SmartClientRequestProtocolTwo)(col)
+        if with_body:
+            client.call_with_body_bytes((b"rec",) + args, body)
+        else:
+            client.call(b"nob", *args)
+    return col.joined(), args, body
+
+
+def ob_socket_pipelined(cx, what):
+    """Two pipelined requests on the real socket medium: bytes read past the end of the first request (the start of
+    the second one) must be preserved and served as the second request."""
+    P = cx.mod(PROTO)
+    M = cx.mod(MED)
+    install(cx)
+    v1 = cx.pick("version1", [1, 2, 3])
+    v2 = cx.pick("version2", [1, 2, 3])
+    enc1, args1, body1 = _one_request(cx, P, v1, "r1")
+    enc2, args2, body2 = _one_request(cx, P, v2, "r2")
+    data = enc1 + enc2
+    pts = cuts(cx, len(data), cx.p("ncuts"))
+    chunks = [data[pts[i]:pts[i + 1]] for i in range(len(pts) - 1)]
+    chunks = [c for c in chunks if len(c)]
+    state = {"i": 0}
+    written = []
+    medium = object.__new__(M.SmartServerSocketStreamMedium)
+    M.SmartMedium.__init__(medium)
+    medium.backing_transport = None
+    medium.root_client_path = "/"
+    medium.finished = False
+    medium._client_timeout = 4.0
+    medium._wait_for_bytes_with_timeout = lambda t: None
+    medium._write_out = written.append
+
+    def _read_bytes(desired):
+        if state["i"] >= len(chunks):
+            return b""
+        c = chunks[state["i"]]
+        state["i"] += 1
+        return c
+    medium._read_bytes = _read_bytes
+    logs = []
+    for k in range(2):
+        _Rec.log = []
+        proto = medium._build_protocol()
+        medium._serve_one_request_unguarded(proto)
+        logs.append(list(_Rec.log))
+    if what == "content":
+        for k, (args, body) in enumerate(((args1, body1), (args2, body2))):
+            log = logs[k]
+            cx.require(len(log) >= 1 and log[0][0] == "args", "request %d: handler never received the arguments" % (k + 1))
+            cx.require(len(log[0][1]) == len(args), "request %d: argument count changed" % (k + 1))
+            for a, b in zip(log[0][1], args):
+                cx.require(a == b, "request %d: argument changed" % (k + 1))
+            bodies = [e[1] for e in log if e[0] == "body"]
+            if body is not None:
+                cx.require(len(bodies) == 1 and bodies[0] == body, "request %d: body changed" % (k + 1))
+            else:
+                cx.require(not bodies, "request %d: spurious body" % (k + 1))
+    else:
+        cx.require(not medium.finished, "server saw EOF although both requests were complete")
+        cx.require(medium._push_back_buffer is None, "bytes left over after the second request")
+    cx.observe("logs", [[(a, b) for a, b in l if a != "chunk"] for l in logs])
+    cx.cover("pipelined")
+    if any(pts[i] > len(enc1) > pts[i - 1] for i in range(1, len(pts))):
+        cx.cover("straddling_read")
